@@ -222,7 +222,9 @@ func (e editor) node(from *Selection, to *Selection, m meta.HasDataDefinitions, 
 		if toChild, err = to.selekt(&toRequest); err != nil {
 			return err
 		}
-		defer toChild.Release()
+		if toChild != nil {
+			defer toChild.Release()
+		}
 		newChild = true
 	case editUpsert:
 
